@@ -174,8 +174,8 @@ class QEditor(actors.Editor):
 class C12(Check):
     prop = "C12"
     level = "exploration"
-    quick_runs = 5000
-    thorough_runs = 120000
+    quick_runs = 6000
+    thorough_runs = 150000
     rule = (
         "grammar-generated query programs (pipelines over query_bucket/find_bucket with categorize, tag, split_url_events, "
         "flood, merge/chunk, sort/limit/filter, period_union, filter_period_intersect, concat, union_no_overlap, "
